@@ -463,6 +463,7 @@ def run(ctx):
         n += integral_types(ctx)
         n += sequencer_specific(ctx)
         n += exotic_int_cases(ctx)
+        n += subclass_cases(ctx)
         n += other_charsets(ctx)
         n += unknown_meta(ctx, rng)
         n += malformed_from_bytes(ctx)
@@ -545,6 +546,52 @@ def exotic_int_cases(ctx):
     return n
 
 
+class Tempo(MetaMessage):
+    """A user's convenience subclass with its own constructor signature."""
+
+    def __init__(self, bpm=120):
+        MetaMessage.__init__(self, 'set_tempo', tempo=int(round(60000000 / bpm)))
+
+
+class Guarded(MetaMessage):
+    """A user's subclass that refuses attribute assignment after construction."""
+
+    def __setattr__(self, name, value):
+        raise AttributeError('read-only')
+
+
+def subclass_cases(ctx):
+    """from_bytes() called through a subclass (the library's frozen class, user classes with their own
+    constructor or a guarded __setattr__) decodes like MetaMessage.from_bytes(); instances of subclasses
+    encode like the base class."""
+    from mido.frozen import FrozenMetaMessage, freeze_message
+    n = 0
+    table = [('set_tempo', {'tempo': 123456}), ('text', {'text': 'abc'}), ('key_signature', {'key': 'Bbm'}), ('end_of_track', {}),
+             ('sequence_number', {'number': 7}), ('time_signature', {'numerator': 6, 'denominator': 8, 'clocks_per_click': 24,
+                                                                   'notated_32nd_notes_per_beat': 8})]
+    for t, a in table:
+        plain = MetaMessage(t, **a)
+        b = plain.bytes()
+        for cls in (FrozenMetaMessage, Tempo, Guarded):
+            case = {'kind': 'subclass', 'type': t, 'via': cls.__name__}
+            try:
+                d = cls.from_bytes(list(b))
+                ctx.check('from_bytes(bytes) == message', d == plain and vars(d) == vars(plain), f'subclass-from_bytes:{cls.__name__}', case,
+                          lambda: repr(d)[:160])
+            except Exception as exc:
+                ctx.fail('from_bytes(bytes) == message', f'subclass-from_bytes:{cls.__name__}:{type(exc).__name__}', case,
+                         f'{type(exc).__name__}: {exc}')
+            n += 1
+        fz = freeze_message(plain)
+        ctx.check('bytes == FF type VLQ(len) payload (reference)', list(fz.bytes()) == list(b) == list(rmeta.encode(t, a)),
+                  'subclass-bytes:frozen', {'kind': 'subclass', 'type': t, 'via': 'frozen.bytes'}, list(fz.bytes())[:10])
+        n += 1
+    tp = Tempo(100)
+    ctx.check('bytes == FF type VLQ(len) payload (reference)', list(tp.bytes()) == list(rmeta.encode('set_tempo', {'tempo': 600000})),
+              'subclass-bytes:user', {'kind': 'subclass', 'type': 'set_tempo', 'via': 'Tempo(100).bytes'}, list(tp.bytes()))
+    return n + 1
+
+
 def cold_jobs():
     """Cold start: the first meta-message calls of a fresh interpreter, made by two threads."""
     from ..coldstart import msg_want
@@ -571,6 +618,9 @@ def replay(ctx, case):
     k = case['kind']
     if k == 'exotic-ints':
         exotic_int_cases(ctx)
+        return
+    if k == 'subclass':
+        subclass_cases(ctx)
         return
     if k == 'cold':
         from .. import coldstart
